@@ -1015,6 +1015,10 @@ func (x *X) fireSiteAsserts(fr *frame, in ssa.Instruction) {
 			continue
 		}
 		fr.fired[key] = true
+		if x.firedAsserts == nil {
+			x.firedAsserts = map[int]bool{}
+		}
+		x.firedAsserts[i] = true
 		env := &Env{vars: map[string]TV{}, pkg: pkgOf(fr.fn), old: x.entryState}
 		for _, p := range fr.fn.Params {
 			if v, ok := fr.vals[p]; ok {
